@@ -63,7 +63,19 @@ def run(facts, res):
     # ------------------------------------------------------------------ K1
     rs = reindexers(facts)
     res.floor("K1", "pack re-indexer (index writer fed from raw pack bytes)", len({b.path for b, _, _ in rs}), 1)
-    for b in {b.path: b for b, _, _ in rs}.values():
+    scan_fns = {}
+    for b, _, _ in rs:
+        # the insertion may sit in a private helper that is handed the positions (`index_object(name, data, start, end)`):
+        # the scanner is then the helper's caller
+        if not byte_consts_compared(b) and not b.public and b.kind != "closure" and \
+                not any(t.callee is not None and "serde_json" in t.callee.path for _, t in b.calls()):
+            cs = [s_.body for s_ in cg_of(facts).callers_of(b.path) if s_.body.in_repo()]
+            if cs:
+                for cb_ in cs:
+                    scan_fns[cb_.path] = cb_
+                continue
+        scan_fns[b.path] = b
+    for b in scan_fns.values():
         S = byte_consts_compared(b)
         tokenizes = any(t.callee is not None and "serde_json" in t.callee.path for _, t in b.calls())
         desc = "{%s}" % ", ".join(repr(chr(v)) for v in sorted(S))
